@@ -430,6 +430,29 @@ def gen_falsy(rng, n):
     return [rng.choice(FALSY) if rng.random() < 0.7 else rng.choice(pool) for _ in range(n)], "falsy"
 
 
+def gen_param_mixed(rng, n):
+    """Parameter objects among the plain values Parameter.__eq__ normalises: numbers around the parameter's value (v, v + 0.5,
+    v + 1, as float / int), True / False, 'on' / 'off', and a few it cannot (other strings, lists, None)"""
+    v, mn, mx = rng.randrange(3), 0, rng.randrange(3, 6)
+    out = []
+    for _ in range(n):
+        r = rng.random()
+        if r < 0.4:
+            if rng.random() < 0.5:
+                v = rng.randrange(4)
+            out.append((f"p{v},{mn},{mx},{1 if rng.random() < 0.15 else 0}", False))
+        elif r < 0.75:
+            k = (v + rng.choice([0, 0, 1, -1])) * 16 + rng.choice([0, 0, 8, 15, -8])
+            out.append((f"n{k}", k % 16 == 0 and rng.random() < 0.5))
+        elif r < 0.85:
+            out.append((rng.choice(["b0", "b1"]), False))
+        elif r < 0.95:
+            out.append((rng.choice(["s6f6e", "s6f6666", "s61"]), False))
+        else:
+            out.append((rng.choice(["l-", "l1", "N"]), False))
+    return out, "param-mixed"
+
+
 def gen_mixed(rng, n):
     out = []
     for _ in range(n):
@@ -465,8 +488,10 @@ def gen_case(rng, flt):
         g = gen_strs
     elif r < 0.79:
         g = gen_lists
-    elif r < 0.93:
+    elif r < 0.88:
         g = gen_params
+    elif r < 0.94:
+        g = gen_param_mixed
     else:
         g = gen_mixed
     vals, vkind = g(rng, n)
@@ -823,7 +848,7 @@ def run(ctx):
                 "on_change, debounce(0..4), throttle, delta, aggregate, custom(4 predicates) and every ordered pair chained; "
                 "values: numbers k/16 (sub-tolerance drifts, steps of exactly 1 and 2 sixteenths, sign changes, |x| up to 10^6, "
                 "as float / int / mixed), True / False among 0, 1, 1.0625, 1.125, the falsy values 0, 0.0, False, '', [], None as values, strings (incl. 'undefined'), integer lists, Parameter objects (fresh, or one object "
-                "updated in place), mixed kinds. distinct = distinct case text; non-trivial = >= 2 calls with both a delivery "
+                "updated in place), Parameter objects MIXED with the plain values Parameter.__eq__ normalises (numbers around the value, True / False, 'on' / 'off') and some it cannot, mixed kinds. distinct = distinct case text; non-trivial = >= 2 calls with both a delivery "
                 "and a non-delivery (or a raise)")
     cases = []
     for fn, ln in load_corpus("C20"):
